@@ -415,26 +415,26 @@ Proof.
 Qed.
 
 (* ------------------------------------------------------------------ *)
-(** * No deviation of the glob library on this table/request (outside region 6) *)
-Lemma no_dev_host globoff tls m t host uri k :
-  F_C03_gobwas_overlap globoff tls m t host uri = false -> globoff = false -> In k (keys t) ->
-  gobwas_match (normalize_host k tls) (normalize_host host tls)
-  = glob_match (normalize_host k tls) (normalize_host host tls).
-Proof.
-  unfold F_C03_gobwas_overlap. intros H -> Hk. apply orb_false_iff in H as [H _].
-  cbn [negb andb] in H.
-  pose proof (existsb_false _ _ _ H Hk) as D. unfold gobwas_deviates in D.
-  apply negb_false_iff in D. now apply eqb_prop in D.
-Qed.
+(** * gobwas/glob and glob semantics *)
+(* the library accepts whatever glob semantics accepts ... *)
+Lemma spec_path_implies m uri p : spec_path_match m uri p = true -> path_match m uri p = true.
+Proof. destruct m; cbn [spec_path_match path_match]; auto. apply glob_implies_gobwas. Qed.
 
-Lemma no_dev_path globoff tls m t host uri k p id :
-  F_C03_gobwas_overlap globoff tls m t host uri = false -> In (k, p, id) (all_routes t) ->
-  spec_path_match m uri p = path_match m uri p.
+(* ... and outside region 6 the two agree on the selected route *)
+Lemma no_dev_selected globoff tls m t host uri k p id :
+  F_C03_gobwas_overlap globoff tls m t host uri = false ->
+  lookup t host tls uri m globoff = Some (k, p, id) ->
+  (globoff = false -> k <> [] ->
+   gobwas_match (normalize_host k tls) (normalize_host host tls)
+   = glob_match (normalize_host k tls) (normalize_host host tls))
+  /\ spec_path_match m uri p = path_match m uri p.
 Proof.
-  unfold F_C03_gobwas_overlap. intros H Hin. apply orb_false_iff in H as [_ H].
-  destruct m; try reflexivity. cbn [spec_path_match path_match].
-  pose proof (existsb_false _ _ _ H Hin) as D. cbn [fst snd] in D. unfold gobwas_deviates in D.
-  apply negb_false_iff in D. apply eqb_prop in D. now symmetry.
+  unfold F_C03_gobwas_overlap. intros H Hl. rewrite Hl in H.
+  apply orb_false_iff in H as [H1 H2]. split.
+  - intros -> Hk. destruct k as [|c k]; [congruence|]. cbn [negb is_nil andb] in H1.
+    unfold gobwas_deviates in H1. apply negb_false_iff in H1. now apply eqb_prop in H1.
+  - destruct m; try reflexivity. cbn [spec_path_match path_match].
+    unfold gobwas_deviates in H2. apply negb_false_iff in H2. apply eqb_prop in H2. now symmetry.
 Qed.
 
 (* ------------------------------------------------------------------ *)
@@ -486,13 +486,15 @@ Theorem lookup_sound t host tls uri m globoff c :
   lookup t host tls uri m globoff = Some c ->
   In c (all_routes t) /\ is_candidate globoff tls m host uri c = true.
 Proof.
-  intros Hwf Hdev Hl. unfold lookup in Hl. fold (host_list t host tls globoff) in Hl.
+  intros Hwf Hdev Hl. pose proof Hl as Hsel.
+  unfold lookup in Hl. fold (host_list t host tls globoff) in Hl.
   apply first_some_some in Hl as [h [Hh H1]].
-  destruct c as [[k p] id]. apply lookup1_some in H1 as [Hk Hfind].
+  destruct c as [[k p] id]. destruct (no_dev_selected _ _ _ _ _ _ _ _ _ Hdev Hsel) as [Dh Dp].
+  apply lookup1_some in H1 as [Hk Hfind].
   apply find_some in Hfind as [Hin Hm]. cbn [fst] in Hm.
   pose proof (assoc_in_all _ _ _ _ Hin) as Hall.
   split; [exact Hall|].
-  unfold is_candidate. rewrite (no_dev_path _ _ _ _ _ _ _ _ _ Hdev Hall), Hm, andb_true_r.
+  unfold is_candidate. rewrite Dp, Hm, andb_true_r.
   apply in_app_or in Hh as [Hh | [<- | []]].
   - unfold host_list in Hh. destruct globoff.
     + apply (matching_host_noglob_in t host tls h Hwf) in Hh as [Hkey Hb].
@@ -500,27 +502,27 @@ Proof.
       apply orb_true_iff. right. unfold spec_host_match. exact Hb.
     + apply (matching_hosts_in t host tls h Hwf) in Hh as [Hkey Hb].
       pose proof (wf_keys_in t h Hwf Hkey) as Hlow. rewrite Hlow in Hk. subst k.
+      destruct h as [|ch h0]; [reflexivity|].
       apply orb_true_iff. right. unfold spec_host_match.
-      now rewrite <- (no_dev_host _ _ _ _ _ _ _ Hdev eq_refl Hkey).
+      rewrite <- (Dh eq_refl); [exact Hb | discriminate].
   - cbn in Hk. subst k. reflexivity.
 Qed.
 
 (* ------------------------------------------------------------------ *)
-(** * lookup_complete *)
+(** * lookup_complete (no region excluded: the library's deviations only add matches) *)
 Theorem lookup_complete t host tls uri m globoff c :
   wf_keys t -> NoDup (keys t) ->
-  F_C03_gobwas_overlap globoff tls m t host uri = false ->
   In c (all_routes t) -> is_candidate globoff tls m host uri c = true ->
   lookup t host tls uri m globoff <> None.
 Proof.
-  intros Hwf Hnd Hdev Hall Hc. destruct c as [[k p] id].
+  intros Hwf Hnd Hall Hc. destruct c as [[k p] id].
   pose proof Hall as Hall'. apply all_routes_in in Hall' as [rs [Hin Hp]].
   rewrite <- (assoc_nodup t k rs Hnd Hin) in Hp.
   assert (Hkey : In k (keys t)).
   { unfold keys. apply in_map_iff. now exists (k, rs). }
   pose proof (wf_keys_in t k Hwf Hkey) as Hlow.
   unfold is_candidate in Hc. apply andb_true_iff in Hc as [Hh Hm].
-  rewrite (no_dev_path _ _ _ _ _ _ _ _ _ Hdev Hall) in Hm.
+  apply spec_path_implies in Hm.
   unfold lookup. fold (host_list t host tls globoff).
   apply (first_some_complete _ _ k); [|now apply (lookup1_complete t k uri m p id)].
   apply in_or_app. apply orb_true_iff in Hh as [Hnil | Hh].
@@ -528,7 +530,7 @@ Proof.
   - left. unfold host_list. unfold spec_host_match in Hh. destruct globoff.
     + apply (matching_host_noglob_in t host tls k Hwf). split; [exact Hkey | exact Hh].
     + apply (matching_hosts_in t host tls k Hwf). split; [exact Hkey|].
-      now rewrite (no_dev_host _ _ _ _ _ _ _ Hdev eq_refl Hkey).
+      now apply glob_implies_gobwas.
 Qed.
 
 (* ------------------------------------------------------------------ *)
@@ -593,6 +595,33 @@ Proof.
   exact (lookup1_longest t h uri MIPrefix k p id Hs eq_refl H1 p' id' Hin Hm).
 Qed.
 
+(* What the code implements for EVERY matcher, the glob matcher included: within the host
+   that answers, the first matching route in Routes.Less order is selected -- no matching
+   route of that host sorts strictly before it.  (For the two prefix matchers this order
+   implies "longest matching path"; for glob patterns the length of the pattern is not a
+   measure of specificity and the property's "longest path" has no independent reading.) *)
+Theorem first_in_route_order t host tls uri m globoff k p id :
+  table_sorted t ->
+  lookup t host tls uri m globoff = Some (k, p, id) ->
+  forall p' id', In (p', id') (assoc t k) -> path_match m uri p' = true ->
+                 route_ltb (p, id) (p', id') = false.
+Proof.
+  intros Hs Hl p' id' Hin Hm. unfold lookup in Hl.
+  apply first_some_some in Hl as [h [_ H1]]. apply lookup1_some in H1 as [_ Hfind].
+  exact (find_sorted_max route_ltb route_ltb_irrefl _ _ _ (p', id')
+           (assoc_sorted t k Hs) Hfind Hin Hm).
+Qed.
+
+(* Table.LookupHost (TCP/SNI): the routes of the key lower(host) itself, path "/" under the
+   prefix matcher *)
+Theorem lookup_host_exact t host k p id :
+  lookup1 t host [47] MPrefix = Some (k, p, id) ->
+  k = lower host /\ In (p, id) (assoc t k) /\ has_prefix [47] p = true.
+Proof.
+  intros H. apply lookup1_some in H as [-> Hf]. apply find_some in Hf as [Hin Hp].
+  now repeat split.
+Qed.
+
 (* ------------------------------------------------------------------ *)
 (** * Refutations: kernel-checked witnesses of the defects of the unchanged code.
       Each shows the region predicate and that the property's brute-force
@@ -651,6 +680,16 @@ Theorem metachar_among_patterns_refuted :
   ex_refuted defs (bs "1.foo.com") false (bs "/") MPrefix false (Some (bs "?.foo.com", bs "/", 0))
   /\ F_C03_metachar_order false false (new_table defs) (bs "1.foo.com") = true
   /\ region (new_table defs) false false MPrefix (bs "1.foo.com") (bs "/") = Some 3.
+Proof. vm_compute. repeat split; reflexivity. Qed.
+
+(* F-C03-3, same mechanism with '*' (current code): the host a!.x matches *.x and *!.x; '*'
+   (42) sorts above '!' (33) in the reversed-name sort, so *.x (literal host suffix ".x") is
+   tried before *!.x (longer suffix "!.x") *)
+Theorem low_byte_host_refuted :
+  let defs := [(bs "*.x", bs "/", 0); (bs "*!.x", bs "/", 1)] in
+  ex_refuted defs (bs "a!.x") false (bs "/") MPrefix false (Some (bs "*.x", bs "/", 0))
+  /\ beats false false MPrefix (bs "*!.x", bs "/", 1) (bs "*.x", bs "/", 0) = true
+  /\ region (new_table defs) false false MPrefix (bs "a!.x") (bs "/") = Some 3.
 Proof. vm_compute. repeat split; reflexivity. Qed.
 
 (* F-C03-4 (REPAIRED in /repo by bc98e3c; about the host order before the repair): *foo.com
